@@ -93,9 +93,10 @@ def build_cases(tier, seed):
                 cases.append(mk(k, kenc, ["pachunk", list(comp)], rng.randrange(2), 10 ** 6, "gb", rng.pick(["ikey", "groups"])))
     # RangeIndex keys
     for n in range(0, 6):
-        for step in (1, 2, 3):
-            start = rng.randrange(0, 5)
-            cases.append(dict(keys=[[start + i * step] for i in range(n)], kenc=["raw"], kcont="range", range=[start, step], sort=1, T=10 ** 6, target="gb", view="groups"))
+        for step in (1, 2, 3, -1, -2):     # (a negative step: the index of a reversed Series)
+            start = rng.randrange(0, 5) if step > 0 else rng.randrange(20, 30)
+            for view in ("groups", "ikey"):
+                cases.append(dict(keys=[[start + i * step] for i in range(n)], kenc=["raw"], kcont="range", range=[start, step], sort=1, T=10 ** 6, target="gb", view=view))
     # two / three keys: null in every component position
     kmax2 = 3 if tier == "quick" else 4
     A2 = [NULL, 1, 2]
